@@ -82,6 +82,11 @@ def run(ctx):
                 if root[0] == "promoted":
                     pa = promoted_const_array(fn, root[1])
                     ad_ok = pa is not None and pa[0] == 0
+                elif root[0] == "loc" and root[1] not in R.mut_borrowed and fn.single_def(root[1]) is not None:
+                    # a named empty array (`let zerolen = [0u8; 0];`), written once and only read
+                    pa = local_array_init(fn, root[1])
+                    ty = fn.local_ty(root[1])
+                    ad_ok = (pa is not None and pa[0] == 0) or (ty["k"] == "array" and ty.get("len") == 0)
             ctx.ob("rekey-dataflow", "ad-empty", ad_ok, "associated data is empty" if ad_ok else "associated data of REKEY is not the empty string", where(fn, t), cfg)
             # plaintext: 32 zero bytes
             ptx = ref_target(fn, pts, t["args"][3])
